@@ -76,6 +76,8 @@ for _ver in ("tls10", "tls11", "tls12"):
     for _k in ("rsa", "ecdsa", "dsa") + (("ed25519", "rsapss")
                                          if _ver == "tls12" else ()):
         SITES.append(("ske", _ver, _k))
+for _ver in ("tls10", "tls11", "tls12"):
+    SITES.append(("ske_srp", _ver, "rsa"))
 for _k in ("rsa", "ecdsa", "ed25519", "rsapss", "p384"):
     SITES.append(("cv13_server", "tls13", _k))
 for _ver in ("tls10", "tls12"):
@@ -145,7 +147,7 @@ def flip_last(data, n=3):
 def run_site(site, ver, key, corr, seed, record=None):
     """Returns (pair, verifier side, info)."""
     info = {}
-    server_side = site in ("ske", "cv13_server")
+    server_side = site in ("ske", "cv13_server", "ske_srp")
     # who presents the credential under test
     if server_side:
         scred, ccred = key, None
@@ -159,6 +161,13 @@ def run_site(site, ver, key, corr, seed, record=None):
     server = {"settings": sc.mk_settings(**skw)}
     chain, pkey = sc.cred(scred)
     server["certChain"], server["privateKey"] = chain, pkey
+    if site == "ske_srp":
+        # SRP authenticated additionally by the server certificate: the
+        # ServerKeyExchange carries a signature here too
+        for o in (client, server):
+            o["settings"].keyExchangeNames = ["srp_sha_rsa"]
+        client["mode"] = "srp"
+        server["verifierDB"] = sc.srp_db()
     if ccred:
         cchain, ckey = sc.cred(ccred)
         client["certChain"], client["privateKey"] = cchain, ckey
@@ -184,7 +193,8 @@ def run_site(site, ver, key, corr, seed, record=None):
             server["settings"] = sc.mk_settings(**dict(
                 skw, rsaSigHashes=["sha384"], ecdsaSigHashes=["sha384"],
                 dsaSigHashes=["sha384"], more_sig_schemes=[]))
-    target_type = {"ske": 12, "cv13_server": 15, "cv_client": 15,
+    target_type = {"ske": 12, "ske_srp": 12, "cv13_server": 15,
+                   "cv_client": 15,
                    "cv13_client": 15, "pha": 15, "pha_fin": 20}[site]
     state = {"seen": 0, "fin": 0}
 
@@ -488,6 +498,41 @@ def check_srp(case):
             kxm.SRPKeyExchange.processServerKeyExchange = orig
     else:
         p = sc.connect(client, server, prepare=prepare)
+    if corr == "ext_only":
+        # SRP user name merely *claimed* in the ClientHello of a certificate
+        # handshake (no SRP suite negotiated, no password proof)
+        from vlib import tap
+        st2 = sc.mk_settings(**dict(st_, keyExchangeNames=["ecdhe_rsa",
+                                                           "rsa"]))
+
+        def add_srp(dev, idx, ct, data):
+            if ct != 22 or data[0] != 1 or state.get("sent"):
+                return None
+            h = tap.parse_client_hello(data[4:])
+            exts = tap.ext_list(h)
+            if any(t == 12 for t, _ in exts):
+                return None
+            state["sent"] = True
+            exts.append((12, b"\x05alice"))
+            return [(ct, tap.build_client_hello(
+                h["version"], h["random"], h["session_id"], h["suites"],
+                exts))]
+
+        def prep2(cc, scn):
+            Deviant(cc, add_srp)
+        srv = {"cred": "rsa", "settings": sc.mk_settings(**st_)}
+        if case.get("cert"):
+            srv["verifierDB"] = sc.srp_db()
+        p = sc.connect({"settings": st2}, srv, prepare=prep2)
+        if not state.get("sent"):
+            return good(nt=False, labels=labels + ["not-applied"])
+        if p.so.ok and p.s.session.srpUsername:
+            return bad("identity-attributed-without-proof:srp:%s:ext_only"
+                       % ver, "certificate handshake, suite %04x: server "
+                       "records srpUsername=%r" % (
+                           p.s.session.cipherSuite,
+                           p.s.session.srpUsername), labels=labels)
+        return good(labels=labels + ["completed" if p.so.ok else "failed"])
     if corr == "none":
         if not p.both_ok or p.s.session.srpUsername != "alice":
             return bad("positive-control-fails:srp:" + ver,
@@ -693,7 +738,60 @@ def check_finished(case):
 
 
 # -------------------------------------------------------------- Checker ---
+def check_checker_resume(case):
+    """A peer the Checker turned away must not get in through resumption of
+    the session that handshake left behind (Checker is not consulted on
+    resumed connections)."""
+    from tlslite.api import SessionCache
+    labels = ["site=checker-resume", "ver=" + case["ver"],
+              "who=" + case["who"]]
+    st_ = settings_for(case["ver"])
+    schain, cchain = sc.cred("rsa")[0], sc.cred("c_rsa")[0]
+    bad_fp = "0" * 40
+    client = {"settings": sc.mk_settings(**st_), "cred": "c_rsa"}
+    tk = {"ticketKeys": [bytearray(b"q" * 32)]} if case.get("tickets") \
+        else {}
+    labels.append("mech=" + ("ticket" if tk else "cache"))
+    server = {"cred": "rsa", "settings": sc.mk_settings(**dict(st_, **tk)),
+              "reqCert": True, "sessionCache": SessionCache()}
+    if case["who"] == "s":
+        server["checker"] = Checker(x509Fingerprint=bad_fp)
+    else:
+        client["checker"] = Checker(x509Fingerprint=bad_fp)
+    DET.reseed("C05chkres", case["ver"], case["who"])
+    p0 = sc.connect(dict(client), dict(server))
+    rej = p0.so if case["who"] == "s" else p0.co
+    if rej.ok or not isinstance(rej.exc, TLSAuthenticationError):
+        return bad("checker-mismatch-accepted:" + case["ver"], repr(rej),
+                   labels=labels)
+    # the other side did complete and holds a session (and tickets)
+    other = p0.c if case["who"] == "s" else p0.s
+    if case["who"] == "s":
+        sc.read_all(p0, "c")
+    sess = p0.c.session
+    if sess is None:
+        return good(nt=False, labels=labels + ["no-session"])
+    client2 = dict(client)
+    client2["session"] = sess
+    try:
+        p = sc.connect(client2, dict(server))
+    except ValueError:
+        return good(labels=labels + ["session-refused-by-api"])
+    vout = p.so if case["who"] == "s" else p.co
+    labels.append("second=" + (describe_exc(vout.exc) if vout.exc
+                               else vout.state))
+    if vout.ok and (p.c.resumed or p.s.resumed):
+        return bad("checker-bypassed-by-resumption:%s:%s:%s" % (
+            "ticket" if tk else "cache", case["ver"], case["who"]),
+            "first handshake rejected by the Checker; the session it left "
+            "behind was resumed and the call returned normally",
+            labels=labels)
+    return good(labels=labels)
+
+
 def check_checker(case):
+    if case.get("resume"):
+        return check_checker_resume(case)
     labels = ["site=checker", "ver=" + case["ver"], "match=%r" %
               case["match"]]
     st_ = settings_for(case["ver"])
@@ -734,7 +832,7 @@ def explicit(tier, seed):
         for cert in (False, True):
             for corr in ("none", "wrong_password", "unknown_user", "a_zero",
                          "a_n", "a_2n", "atk_a_zero", "atk_a_n",
-                         "atk_a_2n"):
+                         "atk_a_2n", "ext_only"):
                 yield {"k": "srp", "ver": ver, "corr": corr, "cert": cert}
     for h in ("sha256", "sha384"):
         for corr in ("none", "wrong_secret", "flip_binder",
@@ -748,6 +846,10 @@ def explicit(tier, seed):
                        "pos": pos}
         for match in (True, False):
             yield {"k": "checker", "ver": ver, "match": match}
+        for who in "sc":
+            for tickets in (False, True):
+                yield {"k": "checker", "ver": ver, "resume": True,
+                       "who": who, "tickets": tickets}
     for v1 in ("tls13", "tls12"):
         for var in ("control", "hash", "expired", "version", "other_key"):
             yield {"k": "ticket", "var": var, "v1": v1}
